@@ -73,7 +73,7 @@ PROPS = {
         level_text='RoundOnce (exact value rounded once) is validated against an independent relational restatement, idempotence, monotonicity and the bracket laws by TLC (MC_Round); the implementation-shaped AlgRound refines it (MC_AlgRound, with the pinned tree as negative control), and so do the transcriptions of Context.add / Mul / Abs / Neg / Reduce / Decimal.Cmp (MC_AlgArith, negative control: the -0-under-floor rule removed), which every recorded call must also match bit for bit (alg_model_drift); every recorded Add/Sub/Mul/Quo/Abs/Neg/Round/context-parse call over the spec-exported boundary domain S, the seeded domain L and the GDA vectors is validated by TLC against Spec_<Op>.',
         mc=[("MC_BigNat", None), ("MC_Round", None), ("MC_AlgRound", None), ("MC_AlgRound", "MC_AlgRound_pinned", "expect-violation"),
             ("MC_AlgArith", None), ("MC_AlgArith", "MC_AlgArith_nofloor", "expect-violation")],
-        drivers=["arithS", "arithL", "ctxparse", "vectors:add,sub,mul,quo,abs,neg,round"],
+        drivers=["arithS", "arithL", "ctxparse", "tableedge", "vectors:add,sub,mul,quo,abs,neg,round"],
         attr=attr_c01,
         rule="every recorded Add/Sub/Mul/Quo/Abs/Neg/Round call (domain S from the spec, seeded domain L) is judged by "
              "Spec_<Op> = RoundOnce(exact result); an event is non-trivial when its result is finite or overflowed "
@@ -178,7 +178,7 @@ def attr_c06(ev, names):
 PROPS["C06"] = dict(
     level_text='Recorded groups of the same call into 7 destination pre-states must be identical; register-machine histories are validated with CtxStep against the reference outcome of the same call on clones (history independence, frame, Context and package-state digests unchanged).',
     mc=[("MC_ErrDec", None)],
-    drivers=[("pre", "TraceRel"), "machine", "parse", "codec"],
+    drivers=[("pre", "TraceRel"), "machine", "parse", "codec", "tableedge"],
     attr=attr_c06,
     rule="each case is executed into 7 destination pre-states; all recorded outcomes must be identical; operands unchanged",
 )
@@ -186,8 +186,8 @@ PROPS["C06"] = dict(
 PROPS["C15"] = dict(
     level_text='MC_Order checks the order axioms of CmpTotalSpec/CmpSpec on 66^3 triples; recorded comparisons are validated against them and observed 6x6 result matrices against the axioms without an oracle.',
     mc=[("MC_Order", None), ("MC_AlgArith", None), ("MC_AlgArith", "MC_AlgArith_noflip", "expect-violation")],
-    drivers=["order"],
-    attr=lambda ev, names: ev.get("k") in ("o", "om"),
+    drivers=["order", "tableedge"],
+    attr=lambda ev, names: ev.get("k") in ("o", "om") or (fam(ev, "a") and ev.get("op") == "cmp" and any_in(names, {"val", "panic", "frame"})),
     rule="every pair of 54 colliding representations plus seeded pairs engineered per code path (equal exponents, equal "
          "values with different exponents, equal adjusted exponents, gaps to +-90000) judged by CmpSpec / CmpTotalSpec; "
          "observed 6x6 result matrices checked for the order axioms without an oracle",
